@@ -1220,6 +1220,38 @@ def sc_c11(env, t, v, cfg):
             n += 1
             if n >= cfg.get("max_cases", 2):
                 break
+    elif misuse == "empty_shape":
+        # arrays that hold NO element: an update of another shape (another length of an axis, one axis too many) holds no
+        # element either, but it is still an update of another shape -- refused, header and size word untouched
+        for path, ct, cv in V.compounds(t, v):
+            if ct[0] != "array" or ct[1][0] != "scalar":
+                continue
+            if path and (V.type_at(t, v, path)[0][0] in ("ref", "uref") or behind_ref(t, v, path)):
+                continue
+            node = V.get_at(t, obj, path) if path else obj
+            if node is None:
+                continue
+            dims = [int(d) for d in node._shape]
+            if int(np.prod(dims)) != 0:
+                continue
+            cands = []
+            for ax, d in enumerate(ct[2]):
+                if d is None:
+                    other = list(dims)
+                    other[ax] += 3
+                    if int(np.prod(other)) == 0:
+                        cands.append(np.zeros(other, dtype=V.NPT[ct[1][1]]))
+            cands.append(np.zeros(list(dims) + [4], dtype=V.NPT[ct[1][1]]))
+            for val in cands:
+                if path:
+                    expect_error(env, B, lambda: V.set_at(t, obj, path, val), f"assigning an ndarray of shape {list(val.shape)} to the empty array of shape {dims} at {path}")
+                else:
+                    expect_error(env, B, lambda: obj._update(val), f"updating the empty array of shape {dims} with an ndarray of shape {list(val.shape)}")
+                fresh = tg.build(ct)._from_buffer(node._buffer, node._offset)
+                env.check([int(d) for d in fresh._shape] == dims, f"C11 the empty array of shape {dims} at {path or 'root'} keeps its recorded shape after a refused update of shape {list(val.shape)}")
+            n += 1
+            if n >= cfg.get("max_cases", 3):
+                break
     elif misuse == "struct_partial":
         # a dict update whose LATER field cannot be honoured must not leave the EARLIER fields rewritten,
         # whatever kind of error the refusal is
